@@ -1,6 +1,7 @@
 import HbsModel.Registry
 import HbsModel.Lemmas.RenderPlain
 import HbsModel.Lemmas.PartialLine
+import HbsModel.Lemmas.PartialNameLine
 import HbsModel.Props.C11
 import HbsModel.Lemmas.RM
 import HbsModel.Spec.Indent
@@ -355,6 +356,169 @@ theorem standalone_partial_is_indented (r : Registry) (fs : FS) (L0 W nl R P : S
     rcases hq with rfl | rfl | rfl
     · exact writes_raw r data _ rfl L0
     · exact partial_writes_indented r data _ P W hP hreg rfl rfl rfl rfl rfl (by simp)
+    · exact writes_raw r data _ rfl R
+  have := render_writes_template r data none _ m { rootTemplate := none } (by simp [renderFuel]) hw
+  simp only [List.map_cons, List.map_nil, Tmpl.name, List.cons_append, List.nil_append] at this ⊢
+  rw [this]
+  simp
+
+/-! ### the same for EVERY partial name -/
+
+/-- a registered plain-text partial rendered under an indentation, at the start of a line -/
+theorem render_plain_partial_indented_named (nm : Str) (reg : Registry) (root : Json) (f : Nat) (P w : Str) (rcE : RC) (out : Out) (hP : P ≠ [])
+    (hi : rcE.indentString = some w) (hb : rcE.indentBeforeWrite = true) (hf : out.failAt = none) :
+    ∃ out', renderTemplate reg root (f + 3) (.mk (some nm) [.raw P] [(1, 1)]) rcE out
+        = .ok () { rcE with currentTemplate := some nm, contentProduced := true, trailingNewline := endsWithNewline P,
+                            indentBeforeWrite := endsWithNewline P } out'
+      ∧ out'.failAt = none
+      ∧ out'.text = out.text ++ (if startsWithNewline P then [] else w) ++ Spec.withIndent w P := by
+  obtain ⟨out', hw, hf', ht⟩ := indentAwareWrite_indented P w { rcE with currentTemplate := some nm } out hP hi hb hf
+  refine ⟨out', ?_, hf', ht⟩
+  have hm := modifyAux_eq (fun rc => { rc with currentTemplate := some nm }) rcE out { rcE with currentTemplate := some nm } rfl
+  simp only [renderTemplate, renderElems, renderElem, RM.bind_def, RM.bnd_apply, RM.get_apply, Tmpl.name, Tmpl.elements, Tmpl.mapping,
+    RM.mapErr, hm, hw, RM.pure_def, RM.ret_apply, Option.isNone_some, Bool.false_eq_true, ↓reduceIte]
+
+/-- `expand_partial` for `{{> name}}` (no argument, no hash) with `p` a registered plain text: its text under the indentation,
+    and the caller's state back except for the three write flags -/
+theorem expandPartial_plain_named (nm : Str) (hnpb : (nm == PARTIAL_BLOCK) = false) (reg : Registry) (root : Json) (f : Nat) (P w : Str) (rc1 : RC) (out : Out) (hP : P ≠ [])
+    (hreg : assocGet reg.templates nm = some (.mk (some nm) [.raw P] [(1, 1)]))
+    (hb : rc1.blocks = [{}]) (hpa : rc1.partials = []) (hdv : rc1.devTemplates = none) (hct : rc1.currentTemplate ≠ some nm)
+    (hib : rc1.indentBeforeWrite = true) (hf : out.failAt = none) :
+    ∃ out', expandPartial reg root (f + 4) ⟨nm, [], [], none, some w⟩ rc1 out
+        = .ok () { rc1 with contentProduced := true, trailingNewline := endsWithNewline P, indentBeforeWrite := endsWithNewline P } out'
+      ∧ out'.failAt = none
+      ∧ out'.text = out.text ++ (if startsWithNewline P then [] else w) ++ Spec.withIndent w P := by
+  obtain ⟨out', hr, hf', ht⟩ := render_plain_partial_indented_named nm reg root f P w
+    { rc1 with blocks := [{ baseValue := some root }], indentString := some w, partials := [], devTemplates := none } out hP rfl hib hf
+  refine ⟨out', ?_, hf', ht⟩
+  have hev := evaluate_this_top root rc1 out hb
+  have hne : (rc1.currentTemplate == some nm) = false := by simpa using hct
+  have hpb : (nm == PARTIAL_BLOCK) = false := hnpb
+  simp only [expandPartial, RM.bind_def, RM.bnd_apply, RM.pure_def, RM.ret_apply, RM.get_apply, hne, Bool.false_eq_true, ↓reduceIte, hpb,
+    hpa, hdv, assocGet, Option.bind, hreg, List.getElem?_nil, hev, SJ.asJson, mergeJson, List.map_nil, List.isEmpty_nil,
+    RM.partialScope, RM.bracket_apply]
+  rw [hr]
+  simp [hb, hpa, hdv]
+
+/-- the compiled standalone `{{> name}}` with indentation `w`, where `p` is registered as the plain text `P`: the text of `P`
+    with `w` in front of every line, in every state a plain template can be in -/
+theorem partial_writes_indented_named (nm : Str) (hnpb : (nm == PARTIAL_BLOCK) = false) (reg : Registry) (root : Json) (rc0 : RC) (P w : Str) (hP : P ≠ [])
+    (hreg : assocGet reg.templates nm = some (.mk (some nm) [.raw P] [(1, 1)]))
+    (hb : rc0.blocks = [{}]) (hi : rc0.indentString = none) (hmc : rc0.modifiedCtx = none)
+    (hpa : rc0.partials = []) (hdv : rc0.devTemplates = none) (hct : rc0.currentTemplate ≠ some nm) :
+    WritesText reg root rc0 (.partialExpr (PlainText.pnameD nm (some w) true))
+      ((if startsWithNewline P then [] else w) ++ Spec.withIndent w P) := by
+  intro fuel rc out hq hf
+  have hrb : rc.blocks = [{}] := by rw [hq.blocks, hb]
+  have hri : rc.indentString = none := by rw [hq.indent, hi]
+  have hrm : rc.modifiedCtx = none := by rw [hq]; exact hmc
+  have hrp : rc.partials = [] := by rw [hq]; exact hpa
+  have hrd : rc.devTemplates = none := by rw [hq]; exact hdv
+  have hrc : rc.currentTemplate ≠ some nm := by rw [hq]; exact hct
+  have hdeco : decoFromTemplate reg root (fuel + 5) (PlainText.pnameD nm (some w) true) rc out
+      = .ok ⟨nm, [], [], none, some w⟩ rc out := by
+    simp [decoFromTemplate, expandAsName, expandParams, expandHash, PlainText.pnameD, DecoG.new, RM.bnd_apply, hri]
+  have hm1 := modifyAux_eq (fun r : RC => { r with
+      indentBeforeWrite := rc.indentBeforeWrite || ((PlainText.pnameD nm (some w) true).indentBeforeWrite && (r.trailingNewline || (PlainText.pnameD nm (some w) true).indent.isSome)),
+      contentProduced := false }) rc out { rc with indentBeforeWrite := true, contentProduced := false }
+    (by simp [PlainText.pnameD, DecoG.new])
+  obtain ⟨out', hx, hf', ht⟩ := expandPartial_plain_named nm hnpb reg root (fuel + 1) P w { rc with indentBeforeWrite := true, contentProduced := false } out hP hreg
+    hrb hrp hrd hrc rfl hf
+  refine ⟨{ rc with contentProduced := true, trailingNewline := endsWithNewline P, indentBeforeWrite := endsWithNewline P }, out', ?_,
+    hq.flags _ _ _, hf', by rw [ht, List.append_assoc]⟩
+  have hm2 := modifyAux_eq (fun r : RC => if r.contentProduced then { r with indentBeforeWrite := r.trailingNewline }
+      else { r with contentProduced := rc.contentProduced, indentBeforeWrite := rc.indentBeforeWrite })
+    { rc with contentProduced := true, trailingNewline := endsWithNewline P, indentBeforeWrite := endsWithNewline P } out'
+    { rc with contentProduced := true, trailingNewline := endsWithNewline P, indentBeforeWrite := endsWithNewline P } (by simp)
+  simp only [renderElem, RM.bind_def, RM.bnd_apply, hdeco, RM.get_apply]
+  rw [hm1]
+  simp only []
+  rw [show fuel + 5 = fuel + 1 + 4 from rfl, hx]
+  simp only []
+  exact hm2
+
+/-- `{{> name}}` -/
+abbrev namedPartialTag (nm : Str) : Str := PlainText.pnameSrc nm
+
+/-- **a standalone partial's output is indented line by line** – from the source text to the bytes: for EVERY text `L0`
+    that is empty or ends a line, EVERY non-empty indentation `W` of blanks, EVERY following text `R`, and EVERY non-empty
+    plain text `P` registered as the partial `name` – ANY name of the grammar's `partial_symbol_char` class (`dir/name.hbs`, `é-1`, …):  `L0 ++ W ++ {{> p}} ++ (LF | CRLF) ++ R`  renders to
+    `L0 ++ W·P ++ R`, where `W·P` is `P` with `W` in front of its first line (unless `P` begins with a line break) and
+    after every line break of `P` except a final one (`Spec.withIndent`); the tag's own indentation and line break are gone
+    and nothing else.  Through the regenerated grammar, the standalone-line rule and the indentation capture of compile2,
+    `expand_partial` and the streaming indent writer. -/
+theorem standalone_named_partial_is_indented (r : Registry) (fs : FS) (nm L0 W nl R P : Str) (data : Json) (hnm : PlainText.PartialName nm)
+    (hdev : r.dev = false) (hpi : r.preventIndent = false)
+    (hreg : assocGet r.templates nm = some (.mk (some nm) [.raw P] [(1, 1)])) (hP : P ≠ [])
+    (hL0 : L0 = [] ∨ L0.getLast? = some '\n') (hopen : C03.noOpen L0)
+    (hW : ∀ ch ∈ W, isBlank ch = true) (hWne : W ≠ [])
+    (hnl : nl = ['\n'] ∨ nl = ['\r', '\n']) (hR : C03.noOpen R) :
+    r.renderTemplate fs ((L0 ++ W) ++ namedPartialTag nm ++ (nl ++ R)) data
+      = .ok (L0 ++ ((if startsWithNewline P then [] else W) ++ Spec.withIndent W P) ++ R) := by
+  have hnpb : (nm == PARTIAL_BLOCK) = false := by
+    apply beq_eq_false_iff_ne.mpr
+    intro e
+    have := hnm.sym '@' (by rw [e]; decide)
+    exact absurd this (by decide)
+  -- the line shape
+  have hL0' : L0 = [] ∨ ∃ x, L0.getLast? = some x ∧ isBlank x = false := by
+    rcases hL0 with h | h
+    · left; exact h
+    · right; exact ⟨'\n', h, by decide⟩
+  have htrimL : trimEndBlank (L0 ++ W) = L0 := C11.trimEndBlank_append L0 W hW hL0'
+  obtain ⟨x, rr, hx, hxb, hxn⟩ : ∃ x rr, nl ++ R = x :: rr ∧ isBlank x = false ∧ isNewline x = true := by
+    rcases hnl with rfl | rfl
+    · exact ⟨'\n', R, rfl, by decide, by decide⟩
+    · exact ⟨'\r', '\n' :: R, rfl, by decide, by decide⟩
+  have htrimR : trimStartBlank (nl ++ R) = nl ++ R := by
+    unfold trimStartBlank; rw [hx]; simp [List.dropWhile, hxb]
+  have hstrip : stripFirstNewline (nl ++ R) = R := by
+    rcases hnl with rfl | rfl <;> simp [stripFirstNewline]
+  have htrimR' : trimStartBlank (x :: rr) = x :: rr := by rw [← hx]; exact htrimR
+  have hsa : PlainText.standalone (L0 ++ W) (nl ++ R) false = true := by
+    simp only [PlainText.standalone, startsWithEmptyLine, endsWithEmptyLine, htrimL, hx, htrimR', startsWithNewline, hxn,
+      Bool.true_or, Bool.true_and]
+    rcases hL0 with rfl | h
+    · rfl
+    · have : isNewline '\n' = true := by decide
+      simp [endsWithNewline, h, this]
+  have hftb : findTrailingBlank (L0 ++ W) = some W := by
+    have hlen : W.length ≠ 0 := fun h => hWne (List.eq_nil_of_length_eq_zero h)
+    simp only [findTrailingBlank, htrimL]
+    have : (L0.length == (L0 ++ W).length) = false := by simp; omega
+    simp [this, hWne]
+  have hLne : L0 ++ W ≠ [] := by simp [hWne]
+  have hLtext : L0 ++ W = [] ∨ PlainText.TextBeforeTag (L0 ++ W) := by
+    right
+    obtain ⟨y, hy, hyb⟩ : ∃ y, (L0 ++ W).getLast? = some y ∧ isBlank y = true := by
+      cases hg : W.getLast? with
+      | none => simp [List.getLast?_eq_none_iff] at hg; exact absurd hg hWne
+      | some y => exact ⟨y, by simp [List.getLast?_append, hg], hW y (List.mem_of_getLast? hg)⟩
+    refine ⟨PlainText.noOpen_append_blank L0 W hopen hW, ?_, ?_⟩
+    · rw [hy]; intro e; cases e; simp [isBlank] at hyb
+    · rw [hy]; intro e; cases e; simp [isBlank] at hyb
+  have hRtext : PlainText.noOpen (nl ++ R) := by
+    rcases hnl with rfl | rfl
+    · exact PlainText.noOpen_cons '\n' R (by decide) hR
+    · exact PlainText.noOpen_cons '\r' _ (by decide) (PlainText.noOpen_cons '\n' R (by decide) hR)
+  -- compile
+  unfold Registry.renderTemplate Registry.renderTemplateToWrite Registry.renderTemplateWithContextToWrite
+    Registry.compileForRenderTemplate
+  obtain ⟨m, hcomp⟩ := PlainText.compile_text_pname_text nm (L0 ++ W) _ _ { preventIndent := r.preventIndent } hnm hpi hLtext
+    (PlainText.textAfterTag_split (nl ++ R) hRtext)
+  rw [← PlainText.split_ws (nl ++ R)] at hcomp
+  have hA : nl ++ R ≠ [] := by rw [hx]; simp
+  simp only [hsa, ↓reduceIte, htrimL, htrimR, hstrip, hftb, hA, PlainText.leftT, hLne, Tmpl.elements] at hcomp
+  rw [show namedPartialTag nm = PlainText.pnameSrc nm from rfl, hcomp]
+  simp only [Registry.renderResolved, hdev, Bool.not_false, ↓reduceIte]
+  -- render
+  have hw : ∀ q ∈ [((Elem.raw L0, L0) : Elem × Str), (.partialExpr (PlainText.pnameD nm (some W) true), (if startsWithNewline P then [] else W) ++ Spec.withIndent W P),
+      (.raw R, R)], WritesText r data { ({ rootTemplate := none } : RC) with currentTemplate := none } q.1 q.2 := by
+    intro q hq
+    simp only [List.mem_cons, List.not_mem_nil, or_false] at hq
+    rcases hq with rfl | rfl | rfl
+    · exact writes_raw r data _ rfl L0
+    · exact partial_writes_indented_named nm hnpb r data _ P W hP hreg rfl rfl rfl rfl rfl (by simp)
     · exact writes_raw r data _ rfl R
   have := render_writes_template r data none _ m { rootTemplate := none } (by simp [renderFuel]) hw
   simp only [List.map_cons, List.map_nil, Tmpl.name, List.cons_append, List.nil_append] at this ⊢
